@@ -292,7 +292,88 @@ def judge(call, nurls, ladder, faults, r):
     return bad
 
 
+def case_sequence(case, res):
+    '''Two calls on ONE Daemon object with the daemon's state changing in between (its height
+    falls: a reorganisation to a shorter chain, a fail-over to a daemon that lags): the second
+    answer must be what the daemon says NOW.'''
+    from electrumx.lib.coins import BitcoinSVRegtest
+    from electrumx.server import daemon as dmod
+    from vf.vloop import VLoop
+    nurls, drop = case['nurls'], case['drop']
+    for faults in itertools.chain(*(itertools.product(FAULTS, repeat=n) for n in range(0, 3))):
+        loop = VLoop()
+        loop.enter()
+        saved = B.height
+        try:
+            urls = ','.join(f'http://u:p@host{i}:8332/' for i in range(nurls))
+            d = dmod.Daemon(BitcoinSVRegtest, urls, init_retry=0.25, max_retry=4)
+            d.session = Session(loop, (), B)
+            t1 = loop.create_task(d.height())
+            loop.run_default(until=t1.done, max_steps=20000)
+            B.height = saved - drop
+            d.session = Session(loop, faults, B)
+            t2 = loop.create_task(d.height())
+            loop.run_default(until=t2.done, max_steps=20000)
+            res.count('executions')
+            res.count('call_sequences')
+            got = (t1.result() if t1.done() and not t1.exception() else 'failed',
+                   t2.result() if t2.done() and not t2.exception() else 'failed', d.cached_height())
+            want = (saved, saved - drop, saved - drop)
+            if got != want:
+                res.violation('stale-answer-after-the-daemon-changed', dict(case, faults=list(faults)),
+                              dict(got=list(got), want=list(want), faults=list(faults)))
+        finally:
+            B.height = saved
+            loop.close()
+
+
+def case_set_url(case, res):
+    '''The operator's daemon_url command with a malformed URL anywhere in the list is refused
+    and must leave the working configuration alone: calls go on as before.'''
+    from electrumx.lib.coins import BitcoinSVRegtest
+    from electrumx.server import daemon as dmod
+    from vf.vloop import VLoop
+    for nurls in (1, 2, 3):
+        for bad_at in range(0, 3):
+            for faults in itertools.chain(*(itertools.product(FAULTS[:3], repeat=n) for n in range(0, 2))):
+                loop = VLoop()
+                loop.enter()
+                try:
+                    urls = ','.join(f'http://u:p@host{i}:8332/' for i in range(nurls))
+                    d = dmod.Daemon(BitcoinSVRegtest, urls, init_retry=0.25, max_retry=4)
+                    before = (list(d.urls), d.url_index)
+                    new = [f'http://u:p@other{i}:8332/' for i in range(bad_at)] + ['no t a url !']
+                    refused = False
+                    try:
+                        d.set_url(','.join(new))
+                    except Exception:       # noqa - CoinError
+                        refused = True
+                    res.count('executions')
+                    res.count('call_sequences')
+                    problem = None
+                    if not refused:
+                        problem = 'malformed-url-accepted'
+                    elif (list(d.urls), d.url_index) != before:
+                        problem = 'refused-set_url-changed-the-configuration'
+                    else:
+                        d.session = Session(loop, faults, B)
+                        t = loop.create_task(d.height())
+                        loop.run_default(until=t.done, max_steps=20000)
+                        if not t.done() or t.exception() or t.result() != B.height:
+                            problem = 'call-fails-after-refused-set_url'
+                    if problem:
+                        res.violation(problem, dict(case, nurls=nurls, bad_at=bad_at),
+                                      dict(urls_before=before[0], urls_after=list(d.urls)))
+                        return
+                finally:
+                    loop.close()
+
+
 def run_case(case, res):
+    if 'set_url' in case:
+        return case_set_url(case, res)
+    if 'drop' in case:
+        return case_sequence(case, res)
     call, nurls, ladder = case['call'], case['nurls'], case['ladder']
     seqs = [tuple(tuple(f) if isinstance(f, list) else f for f in case['faults'])] \
         if 'faults' in case else None
@@ -335,7 +416,7 @@ def run_case(case, res):
 
 def cases_for(tier):
     q = tier == 'quick'
-    cases = []
+    cases = [dict(nurls=n, drop=dr) for n in (1, 2) for dr in (-2, 0, 1, 3)] + [dict(set_url=True)]
     main_calls = ['height', 'rawtxs', 'rawtxs-strict', 'block']
     other_calls = [c for c in CALLS if c not in main_calls]
     long_extra = []
